@@ -137,7 +137,7 @@ def oracle_csr(ctx, c0, c1, r0, r1):
 
 def run_pairs(ctx, pairs, nmodel):
     """-> (disagreements, ratios)"""
-    r0 = dc.run_impl(ctx, "".join(c0.impl_text("csr") for c0, _ in pairs))
+    r0 = dc.run_impl(ctx, "".join(c0.impl_text("csr") for c0, _ in pairs), [c0 for c0, _ in pairs], "csr")
     for c0, c1 in pairs:
         fr = r0[c0.cid]
         fmax = float(fr["df"][1]) * float(fr["freq"][-1])
@@ -202,7 +202,7 @@ def run_multibunch(ctx, pairs, nmodel):
     "cutoff makes it smaller" per bunch.  Correspondence: row b / power b against the extracted model of
     bunch b alone (what C07_multibunch_spectrum_row / _power state)."""
     import copy
-    r0 = dc.run_impl(ctx, "".join(c0.impl_text("csrmb") for c0, _ in pairs))
+    r0 = dc.run_impl(ctx, "".join(c0.impl_text("csrmb") for c0, _ in pairs), [c0 for c0, _ in pairs], "csrmb")
     for c0, c1 in pairs:
         fr = r0[c0.cid]
         fmax = float(fr["df"][1]) * float(fr["freq"][-1])
@@ -320,6 +320,8 @@ def replay(ctx, rp):
     c1.cut_frac = 0.5
     note = c.get("note", "")
     c0.passive = c1.passive = note.startswith("passive") or note.startswith("smooth")
+    if c.get("warm"):
+        c0.warm = c1.warm = [[fx(p) for p in profs] for profs in c["warm"]]
     coq = vp_coq.full_check("C07", ctx, fams=("dft",))
     if c["kind"] == "csrmb":
         c0.pre = c1.pre = [(o["op"], [fx(p) for p in o["prof"]]) for o in c.get("pre", [])]
